@@ -598,7 +598,7 @@ def finish(ctx, bounds=None, rule='', trusted=None, extra=None):
     wall = time.time() - ctx.t0
     nontrivial = sum(1 for r in ctx.queries if r.get('status') in ('pass', 'fail') and (r.get('witness') == 'reached' or r.get('status') == 'fail' or r.get('programs') or ctx.extra.get('count_all_verdicts')))
     fnames = sorted(ctx.functions)
-    dem = demangle(fnames) if fnames else []
+    dem = demangle(fnames) if (fnames and ctx.level != 'translation_validation') else fnames
     cov = {
         'evaluations': len(ctx.queries),
         'distinct_nontrivial': nontrivial,
